@@ -104,6 +104,11 @@ class Probe:
         self._hook('cond')
         return True
 
+    def ttinv(self, i, idle, time):
+        self.log.append(('ttinv', i, idle, time))
+        self._hook('cond')
+        return True
+
     def tpost(self, j, after, time):
         self.log.append(('tpost', j, after, time))
         self._hook('cond')
